@@ -226,6 +226,7 @@ def match_known(prop, key):
 
 class Verdict:
     def __init__(self, prop, tier, seed):
+        ensure_dirs()
         self.prop, self.tier, self.seed = prop, tier, seed
         self.violations = []     # dicts: key, what, obligation, verifier_output, counterexample(argv)|None
         self.known = []
